@@ -75,6 +75,8 @@ package slug
 //@   ghost $tarCloseErr Iface = nil
 //@   ghost $gzipCloseErr Iface = nil
 //@   replay packMeta@C20:
+//@   replay packRootLink@C16:
+//@   at-call path/filepath.Walk#1 C16.pack.walk-root: a0 == Abs(ite(modeSymlinkBit(fileMode(info)), ite(isAbs(readlinkOf(src)), readlinkOf(src), Join(Dir(src), readlinkOf(src))), src))
 //@   ensures C20.pack.meta: err == nil ==> metaMatchesArchive(meta)
 //@   ensures C12.pack.close-errors: err == nil ==> isNil($tarCloseErr) && isNil($gzipCloseErr)
 //@   ensures C12.pack.noresult: err != nil ==> meta == nil
